@@ -24,8 +24,11 @@ pub const SIG_REDB_VERSION: &str = "redb_cas_version_reset";
 #[derive(Clone, Debug)]
 pub enum ROp {
     Do(Op),
-    /// the harness yields: the writer task commits everything that is queued
+    /// the harness lets the writer task run until it has committed everything that is queued
     Settle,
+    /// the one-second timer task queues its time-stamp update now (it runs concurrently with the core,
+    /// so the update can land at every position of the writer's queue)
+    Tick,
 }
 
 pub struct RedbScenario {
@@ -143,6 +146,15 @@ impl Scenario for RedbScenario {
         if matches!(history.first().map(|o| &self.ops[*o as usize]), Some(ROp::Settle)) {
             return None;
         }
+        // a tick right after a tick or a settle, or at the very end, is the same as none
+        for w in history.windows(2) {
+            if matches!(self.ops[w[1] as usize], ROp::Tick) && !matches!(self.ops[w[0] as usize], ROp::Do(_)) {
+                return None;
+            }
+        }
+        if history.len() > 1 && matches!(history.first().map(|o| &self.ops[*o as usize]), Some(ROp::Tick)) {
+            return None;
+        }
         let root = scratch_root();
         let dir = fresh_dir(&root, &format!("c18-{}", DIR_COUNTER.fetch_add(1, Ordering::Relaxed)));
         let cfg = redb_config(&dir);
@@ -160,9 +172,20 @@ impl Scenario for RedbScenario {
             for o in history {
                 match &self.ops[*o as usize] {
                     ROp::Settle => {
+                        // the writer runs until it has worked off everything queued so far; the end of
+                        // that is observed through a flush request at the tail of its queue (a time-stamp
+                        // update in between writes a file on the blocking pool, which takes real time,
+                        // so a fixed number of yields would not do)
                         yield_many().await;
+                        worterbuch::verif::flush(&mut wb).await.map_err(|e| format!("MACHINERY: settle: {e}"))?;
                         durable = acts.len();
                         class = "settle".into();
+                    }
+                    ROp::Tick => {
+                        if !worterbuch::verif::redb_queue_timestamp_update(&wb).await {
+                            return Err("MACHINERY: the core does not use the ReDB persistence".into());
+                        }
+                        class = "tick".into();
                     }
                     ROp::Do(op) => {
                         let mut real = RealCore::with(wb);
@@ -299,6 +322,7 @@ pub fn scenario(open: BTreeSet<String>, clean_stop: bool) -> RedbScenario {
     let s = |x: &str| x.to_owned();
     let ops = vec![
         ROp::Settle,
+        ROp::Tick,
         ROp::Do(Op::Set(0, s("a"), json!(1))),
         ROp::Do(Op::Set(0, s("b/x"), json!(2))),
         ROp::Do(Op::Set(0, s("a"), json!(3))),
